@@ -600,6 +600,57 @@ def gen_until_fail(rng, cid):
     return c
 
 
+def gen_crash_plan(rng, cid):
+    """a split plan one of whose pieces is cut short by an exception of user code - a process that raises, a shared event failed
+    with nobody waiting - which the caller catches, and then carries on with further run(until=...)/step()/run() pieces, while
+    MANY timeouts (8-16 sleepers, one to three naps each, due before and after the stop instants) are pending: whatever an aborted
+    piece leaves behind, the continued run still processes every occurrence at its due time, in time order (C01 holds for the
+    run as a whole; C03: the way a run is driven does not reorder it)"""
+    c = Case(cid, 'plan')
+    slot = 0
+    n = rng.randint(8, 16)
+    span = rng.choice([12, 30, 30, 60])
+    for i in range(n):
+        prog = []
+        for k in range(rng.choice([1, 1, 2, 2, 3])):
+            d = rng.choice([rng.randint(1, span), rng.randint(1, span), rng.choice([0.5, 1.5, 2.25]), round(rng.uniform(0.1, span), 2)])
+            prog += [('timeout', slot, d, val(rng)), ('yield', slot, 0)]
+            slot += 1
+        if rng.random() < 0.3:
+            prog.append(('log', 20 + i))
+        c.progs.append(prog)
+        c.mains.append((len(c.progs) - 1, i + 1))
+    crashes = []
+    for j in range(rng.choice([1, 1, 1, 2])):
+        tc = rng.choice([rng.randint(1, max(2, span // 3)), rng.randint(1, span // 2), 0.5, 2.5]) + (span // 3 if j else 0)
+        crashes.append(tc)
+        if rng.random() < 0.7:
+            c.progs.append([('timeout', slot, tc, None), ('yield', slot, 0), ('log', 90 + j), ('raise', rng.choice(EXCS), rng.randint(0, 9))])
+        else:
+            c.progs.append([('event', slot + 1), ('timeout', slot, tc, None), ('yield', slot, 0), ('fail', slot + 1, rng.choice(EXCS), rng.randint(0, 9)),
+                            ('timeout', slot + 2, rng.choice([1, 3]), None), ('yield', slot + 2, 0), ('log', 92 + j)])
+        slot += 3
+        c.mains.append((len(c.progs) - 1, 50 + j))
+    if rng.random() < 0.5:
+        rng.shuffle(c.mains)
+    plan = []
+    if rng.random() < 0.3:
+        plan.append(rng.choice([('S', rng.randint(1, n)), ('T', float(min(crashes)) / 2)]))
+    # the piece that is cut short: mostly a numeric stop beyond the crash (and beyond most of the program)
+    t_stop = rng.choice([float(span + rng.randint(1, 40)), float(max(crashes) + rng.randint(1, span)), float(min(crashes)) + 0.5, float(span * 3)])
+    plan.append(('T', t_stop))
+    for _ in range(rng.randint(0, 3)):
+        x = rng.random()
+        if x < 0.4:
+            plan.append(('T', float(rng.randint(1, 2 * span)) + rng.choice([0, 0.5])))
+        elif x < 0.7:
+            plan.append(('S', rng.randint(1, 9)))
+        else:
+            plan.append(('E', rng.randrange(max(1, slot - 3))))
+    c.plan = plan
+    return c
+
+
 def gen_until_react(rng, cid):
     """a split plan whose run(until=event) waits for an event that has waiters registered BEFORE run() is called, and those
     waiters react at once: they start a process, interrupt a sleeper, trigger another event with its own waiter, create a
